@@ -227,6 +227,53 @@ pub fn check_analysis(b: &Bound, formulas: &[String]) -> Option<String> {
     }
 }
 
+/// Archived sets used as wild-card / domain context by `analyse_formulae` (the archive -> analysis ->
+/// archive chain) have the same effect as the in-memory sets: including sets that are not confined to
+/// the valid colours (whole symbolic space, a raw state variable).
+pub fn check_analysis_ctx(b: &Bound) -> Option<String> {
+    let dir = tempfile::tempdir().ok()?;
+    let (cpath, opath) = (dir.path().join("ctx.zip"), dir.path().join("out.zip"));
+    let v0 = b.spec.vars[0].clone();
+    let formulas: Vec<String> = vec!["%raw%".into(), format!("%rawa% | {v0}"), "EF %rawa%".into(), "~ %rawa%".into(), "%p% & %rawa%".into(), "!{x} in %rawa%: AX ({x} | %p%)".into()];
+    let k = 1u16;
+    let r = guarded(AssertUnwindSafe(|| -> Option<String> {
+        let g = get_extended_symbolic_graph(&b.bn, k).ok()?;
+        let sc = g.symbolic_context();
+        let fams = label_families(b, 1);
+        let sets: HashMap<String, GraphColoredVertices> = HashMap::from([
+            ("raw".to_string(), GraphColoredVertices::new(sc.mk_constant(true), sc)),
+            ("rawa".to_string(), GraphColoredVertices::new(sc.mk_state_variable_is_true(g.variables().next().unwrap()), sc)),
+            ("p".to_string(), b.mk_set_in(&g, &fams[0].1.wild[0])),
+        ]);
+        if let Err(e) = build_result_archive(sets.clone(), cpath.to_str().unwrap(), b.bn.to_string().as_str(), vec![]) {
+            return Some(format!("writing the context archive fails: {e}"));
+        }
+        if let Err(e) = analyse_formulae(&b.bn, formulas.clone(), PrintOptions::NoPrint, Some(opath.to_str().unwrap().to_string()), Some(cpath.to_str().unwrap().to_string())) {
+            return Some(format!("analyse_formulae with a context archive fails: {e}"));
+        }
+        let loaded = match load_bdd_bundle(opath.to_str().unwrap(), g.symbolic_context()) {
+            Ok(l) => l,
+            Err(e) => return Some(format!("load_bdd_bundle fails on the analysis archive: {e}")),
+        };
+        for (i, f) in formulas.iter().enumerate() {
+            let want = match mc::model_check_extended_formula_dirty(f, &g, &sets) {
+                Ok(w) => w,
+                Err(e) => return Some(format!("in-memory evaluation of {f} fails: {e}")),
+            };
+            match loaded.get(&format!("formula-{i}")) {
+                Some(s) if s.as_bdd() == want.as_bdd() => {}
+                Some(s) => return Some(format!("line {i} ({f}): through the archives {} elements, with the in-memory sets {}", s.exact_cardinality(), want.exact_cardinality())),
+                None => return Some(format!("entry formula-{i} missing")),
+            }
+        }
+        None
+    }));
+    match r {
+        Ok(v) => v,
+        Err(p) => Some(format!("panic: {p}")),
+    }
+}
+
 /// A set whose serialised BDD is large (about 2^13 nodes, > 100 KB of text) must round-trip too.
 pub fn check_large() -> Result<Option<String>, String> {
     use biodivine_lib_param_bn::biodivine_std::traits::Set;
@@ -275,6 +322,9 @@ pub fn replay(case: &Value) -> Option<String> {
     }
     let spec = serde_json::from_value(case["net"].clone()).ok()?;
     let b = Bound::new("replay", &spec, 0).ok()?;
+    if case.get("analysis_ctx").is_some() {
+        return check_analysis_ctx(&b);
+    }
     if let Some(fs) = case.get("analysis") {
         let fs: Vec<String> = serde_json::from_value(fs.clone()).ok()?;
         return check_analysis(&b, &fs);
@@ -385,7 +435,14 @@ pub fn run(tier: &str) -> Result<Report, String> {
             }
         }
     }
+    // the archive -> analysis -> archive chain with context sets inside and outside the valid colours
+    for b in nets.iter().filter(|b| which.contains(&b.name.as_str())) {
+        rep.evaluations += 1;
+        if let Some(w) = check_analysis_ctx(b) {
+            rep.violations.push(Violation { case: json!({"kind": "archive", "net": b.spec, "analysis_ctx": true}), what: format!("analyse_formulae with a context archive on {}: {w}", b.name), size: 6 });
+        }
+    }
     rep.sample(json!({"network": "con2", "format": "sbml", "k": 2, "labels": ["a", "x_1", "A.b", "formula-0"], "formulae_lines": 3}));
-    rep.rule = format!("networks {which:?} x input format (aeon, aeon with reversed line order, sbml, bnet where the format reproduces the network exactly) x k in {ks:?} x 7 label->set maps (empty map, empty set, unit set, colour-dependent/empty-for-some-colours/colour-disjoint family sets, raw results; labels formula-0, a, x_1, A.b, run.2.fixed, 'dom 1', x-y, é_2, BDD, a.bdd, nested labels zz/p 0/p dir/sub/q next to p, s0..) x 4 formula lists (0-3 lines) x (aeon) 4 histories of the target path (fresh, an earlier result archive of another model with other formulae and overlapping + additional labels, a non-zip file, an empty file): build_result_archive -> independent unzip (entry list exact, formulae.txt lines) -> model.aeon re-parsed, symbolic context compared by variable names -> load_bdd_bundle -> every set compared point-wise on all (state, valid colour) pairs and as BDD -> reloaded sets used as wild-card/domain context of three extended formulae; plus analyse_formulae archives: entry formula-i equals the result of line i. distinct_nontrivial = round-trip cases with at least one set");
+    rep.rule = format!("networks {which:?} x input format (aeon, aeon with reversed line order, sbml, bnet where the format reproduces the network exactly) x k in {ks:?} x 7 label->set maps (empty map, empty set, unit set, colour-dependent/empty-for-some-colours/colour-disjoint family sets, raw results; labels formula-0, a, x_1, A.b, run.2.fixed, 'dom 1', x-y, é_2, BDD, a.bdd, nested labels zz/p 0/p dir/sub/q next to p, s0..) x 4 formula lists (0-3 lines) x (aeon) 4 histories of the target path (fresh, an earlier result archive of another model with other formulae and overlapping + additional labels, a non-zip file, an empty file): build_result_archive -> independent unzip (entry list exact, formulae.txt lines) -> model.aeon re-parsed, symbolic context compared by variable names -> load_bdd_bundle -> every set compared point-wise on all (state, valid colour) pairs and as BDD -> reloaded sets used as wild-card/domain context of three extended formulae; plus analyse_formulae archives: entry formula-i equals the result of line i; plus the chain context archive -> analyse_formulae -> result archive with context sets inside and outside the valid colours (whole symbolic space, raw state variable) vs evaluation with the in-memory sets. distinct_nontrivial = round-trip cases with at least one set");
     Ok(rep)
 }
